@@ -9,10 +9,23 @@ from pyvc import core
 from pyvc.contract import Contract, Ctx, register
 
 
+class Vr:
+    """a discrete variable"""
+
+    _c = {}
+
+    def __new__(cls, name):
+        if name not in cls._c:
+            o = object.__new__(cls)
+            o.name, o.dtype = name, 3
+            cls._c[name] = o
+        return cls._c[name]
+
+
 class X:
     def __init__(self, label, input_vars=()):
         self.label = label
-        self.input_vars = frozenset(input_vars)
+        self.input_vars = frozenset(Vr(v) for v in input_vars)
 
     def reduce(self, op, vs):
         return ("reduce", self, op, frozenset(vs) if not isinstance(vs, frozenset) else vs)
@@ -41,7 +54,21 @@ class OpsNS:
     SAFE_BINARY_INVERSES = {PROD: DIV}
 
 
-NS = dict(ops=OpsNS, Approximate=lambda op, a, b, vs: ("exact", op, a, b, vs))
+class Exact(X):
+    """Approximate(op, model, guide, vars): exact (eager_approximate returns the model); carries the model's variables"""
+
+    def __init__(self, op, a, b, vs):
+        X.__init__(self, "exact")
+        self.input_vars = getattr(a, "input_vars", frozenset())
+        self.t = ("exact", op, a, b, vs)
+
+    def __eq__(self, o):
+        return isinstance(o, Exact) and self.t == o.t or (isinstance(o, tuple) and self.t == o)
+
+    __hash__ = object.__hash__
+
+
+NS = dict(ops=OpsNS, Approximate=Exact, isinstance=core.sisinstance, int=int, frozenset=frozenset)
 
 
 class _Adj(Contract):
@@ -204,7 +231,7 @@ class EagerScatterNumber(Contract):
             calls.append((op, s, source, rv))
             return ("tensor-scatter", source)
 
-        ns = dict(Variable=VariableCls, SliceCls=type("S", (), {"__sym_instancecheck__": staticmethod(lambda x: isinstance(x, SliceS))}), isinstance=core.sisinstance, all=core.sall, Tensor=lambda d, dtype=None: ("Tensor", d, dtype), numeric_array=lambda d: ("array", d), eager_scatter_tensor=est, len=len)
+        ns = dict(Variable=VariableCls, Slice=type("S2", (), {"__sym_instancecheck__": staticmethod(lambda x: isinstance(x, SliceS))}), SliceCls=type("S", (), {"__sym_instancecheck__": staticmethod(lambda x: isinstance(x, SliceS))}), isinstance=core.sisinstance, all=core.sall, Tensor=lambda d, dtype=None: ("Tensor", d, dtype), numeric_array=lambda d: ("array", d), eager_scatter_tensor=est, len=len)
         src = Src()
         return Ctx(args=("op", subs, src, frozenset()), namespace=ns, ks=ks, src=src, calls=calls, subs=subs)
 
